@@ -85,8 +85,8 @@ class Lib:
         if "generic_array" not in self.externs:
             raise RuntimeError("generic_array rlib not found in cargo output")
 
-    def rustc(self, src, out=None, check_only=False, extra=()):
-        cmd = ["rustc", "--edition", "2021", "-L", "dependency=" + self.deps, "--cap-lints", "allow"]
+    def rustc(self, src, out=None, check_only=False, extra=(), cap="allow"):
+        cmd = ["rustc", "--edition", "2021", "-L", "dependency=" + self.deps, "--cap-lints", cap]
         if self.release:
             cmd += ["-C", "debug-assertions=off", "-C", "overflow-checks=off", "-C", "opt-level=1", "-C", "debuginfo=0"]
         else:
